@@ -44,8 +44,9 @@ Lemma upd_nat_wf : forall l n g l', wf_bytes l -> (forall x, 0 <= x < 256 -> 0 <
 Proof.
   induction l as [| x r IH]; intros n g l' W G H; [discriminate|]. inversion W; subst.
   destruct n; cbn [upd_nat] in H.
-  - inversion H; subst. constructor; auto.
-  - destruct (upd_nat r n g) eqn:E; [|discriminate]. inversion H; subst. constructor; eauto.
+  - inversion H; subst. constructor; [apply G; assumption | assumption].
+  - destruct (upd_nat r n g) eqn:E; [|discriminate]. inversion H; subst.
+    constructor; [assumption | eapply IH; eassumption].
 Qed.
 
 (* ------------------------------------------------------------------ padding to 32 bits *)
@@ -192,7 +193,9 @@ Proof.
     destruct (Z.leb_spec 0 (byte_ix i)) as [Hb | Hb]; [|discriminate].
     destruct (nth_error (bs_bytes f) (Z.to_nat (byte_ix i))); [|discriminate].
     cbn [bind] in H. unfold bit_mask in H.
-    assert (Hq : byte_ix i <= 0) by (unfold byte_ix; apply Z.quot_opp_r_sign_lemma || idtac; pose proof (Z.quot_neg i 8); unfold byte_ix; lia).
+    assert (Hq : byte_ix i <= 0).
+    { unfold byte_ix. replace i with (- (- i)) by lia. rewrite Z.quot_opp_l by lia.
+      pose proof (Z.quot_pos (- i) 8 ltac:(lia) ltac:(lia)). lia. }
     assert (E : byte_ix i = 0) by lia. rewrite E in H.
     destruct (Z.ltb_spec (7 - (i - 8 * 0)) 8); [lia|].
     rewrite Z.land_0_r in H. inversion H. reflexivity.
@@ -310,14 +313,16 @@ Section SetUnset.
     { eapply upd_nat_wf; [apply pad4_wf; exact Hwf | | exact E].
       intros y Hy. rewrite bit_mask_nonneg by lia. apply byte_bits_bound; lia. }
     split; [exact Hbit|].
-    split.
-    - intros j Hj Hne. rewrite (rfc_bit_update _ _ i _ ltac:(lia) E j Hj).
+    assert (Hoth : forall j, 0 <= j -> j <> i -> rfc_bit bs j = rfc_bit (bs_bytes P) j).
+    { intros j Hj Hne. rewrite (rfc_bit_update _ _ i _ ltac:(lia) E j Hj).
       destruct (Z.eqb_spec (j / 8) (i / 8)) as [E8 | E8]; [|reflexivity].
       fold n. rewrite EX. cbn [option_map]. unfold rfc_bit. rewrite E8. fold n. rewrite EX.
       pose proof (Z.mod_pos_bound j 8 ltac:(lia)).
       rewrite bit_mask_nonneg, ldiff_pow2_bit by lia.
       destruct (Z.eqb_spec (7 - i mod 8) (7 - j mod 8)) as [E7 | E7]; [exfalso; revert E7; apply same_byte_other_bit; assumption|].
-      rewrite andb_true_r. reflexivity.
+      rewrite andb_true_r. reflexivity. }
+    split.
+    - exact Hoth.
     - rewrite is_flag_set_spec by lia. cbn [bs_bytes]. rewrite Hbit. reflexivity.
   Qed.
 End SetUnset.
